@@ -863,6 +863,7 @@ func c13Run(t *testing.T, ops []c13Op, emit bool) *c13Result {
 	var prevHeld map[int]bool
 	var prevCached uint64             // cached sequence at the previous pull
 	restamped := map[int]bool{}       // channels some rebuild kept but re-stamped with a later sequence (finding restamped-grant-loses-period)
+	restampedRoles := map[int]bool{}  // ... and roles of the user re-stamped the same way (RolesSince)
 	// root-cause bookkeeping for the end-to-end monitor
 	type jump struct{ T, S uint64 }
 	var jumps []jump                    // a page ended with a revocation row whose token is printed without its trigger
@@ -938,6 +939,13 @@ func c13Run(t *testing.T, ops []c13Op, emit bool) *c13Result {
 					}
 				}
 			}
+			if rawBefore != nil && rawBefore.RoleInvalSeq != 0 && op.Kind != "rchans" {
+				if rawAfter := e.rawPrinc(true, "u"); rawAfter != nil {
+					if after, terr := c13TimedSet(rawAfter.RolesSince, c13RoleID); terr == nil {
+						c13NoteRoleRestamps(restampedRoles, rawBefore.RolesSince, after)
+					}
+				}
+			}
 			if err == nil && rev != "" && emit {
 				if sdAfter, err2 := e.col.GetDocSyncData(e.ctx, c13DocName(op.Doc)); err2 == nil {
 					c13EmitDocHist(res, sdBefore, &sdAfter)
@@ -990,6 +998,7 @@ func c13Run(t *testing.T, ops []c13Op, emit bool) *c13Result {
 		}
 		if rawU != nil && rawU.RoleInvalSeq != 0 {
 			c13EmitCalc(res, fail, i, emit, "user roles", rawU.RoleInvalSeq, rawU.RolesSince, rawU.RoleHistory, snap.User.Roles, snap.User.RoleHist, c13RoleID)
+			c13NoteRoleRestamps(restampedRoles, rawU.RolesSince, snap.User.Roles)
 		}
 		for _, rs := range snap.Roles {
 			if raw := rawR[int(rs.ID)]; raw != nil && raw.ChannelInvalSeq != 0 && !raw.Deleted {
@@ -1070,7 +1079,23 @@ func c13Run(t *testing.T, ops []c13Op, emit bool) *c13Result {
 				}
 				if !covered {
 					sig := "period-missing-for-held-channel"
-					if restamped[c] {
+					explained := restamped[c]
+					for _, rs := range snap.Roles {
+						if !restampedRoles[int(rs.ID)] {
+							continue
+						}
+						for _, q := range rs.Chans {
+							if int(q.A)-1 == c {
+								explained = true
+							}
+						}
+						for _, h := range rs.Hist {
+							if int(h.Name)-1 == c {
+								explained = true
+							}
+						}
+					}
+					if explained {
 						sig = "stale-doc/restamped-grant-loses-period"
 					}
 					fail(i, "granted_periods_cover", sig, fmt.Sprintf("op %d: channel %s was held at the previous pull (cached sequence %d) but no period returned by CollectionChannelGrantedPeriods now contains %d: %v", i, c13ChanNames[c], prevCached, prevCached, c13SortPeriods(per)))
@@ -1618,6 +1643,20 @@ func c13NoteRestamps(restamped map[int]bool, old channels.TimedSet, new_ []c13Pa
 	}
 }
 
+func c13NoteRoleRestamps(restamped map[int]bool, old channels.TimedSet, new_ []c13Pair) {
+	for name, v := range old {
+		id, ok := c13RoleID(name)
+		if !ok {
+			continue
+		}
+		for _, n := range new_ {
+			if n.A == id && n.B > v.Sequence && v.Sequence != 0 {
+				restamped[int(id)] = true
+			}
+		}
+	}
+}
+
 // Go reflection of history_records_periods: every lost grant is appended with [granted_at, invalidation_seq)
 func c13CheckHistoryRecords(fail func(int, string, string, string), i int, inval uint64, old, new_ []c13Pair, before, after []c13Hist) {
 	for _, g := range old {
@@ -1871,6 +1910,9 @@ func c13Corpus() map[string][]c13Op {
 		"doc_grant_moved_between_docs":   {P(1, 1), {Kind: "put", Doc: 2, Chans: []int{2}, Acc: []c13Grant{{V: []int{1}}}}, pull(0), {Kind: "put", Doc: 3, Chans: []int{2}, Acc: []c13Grant{{V: []int{1}}}}, P(2, 2), P(1, 1), pull(0), {Kind: "del", Doc: 3}, pull(0)},
 		// channel A from two sources of the same principal (a granting document, then an explicit grant): when the document
 		// stops granting, the rebuild keeps A but re-stamps it with the later sequence; the period before is in no history
+		// the same through the user's ROLE set: role r2 reaches the user from a role() grant of d2 (stamped 2) and from an
+		// admin grant (stamped 6); d2 is deleted, the rebuild keeps r2 but re-stamps it 6
+		"restamped_role_loses_period": {{Kind: "put", Doc: 2, Chans: []int{2}, Rol: []c13Grant{{V: []int{2}}}}, rch(2, 1), P(1, 1), pull(0), P(1, 2), uro(2), {Kind: "del", Doc: 2}, rch(2), pull(0)},
 		"restamped_grant_loses_period": {P(1, 1), {Kind: "put", Doc: 2, Chans: []int{2}, Acc: []c13Grant{{V: []int{1}}}}, pull(0), P(1, 2), uch(1), P(2, 2), uch(), pull(0)},
 	}
 }
